@@ -18,7 +18,7 @@ PROP = dict(
          "characters and past the end included), each under catch_unwind, in child processes (a dead worker is a failing input; a worker silent for 40 s is re-run alone and judged by 300 s of its own CPU time) (a dead worker is a "
          "failing input too); one spec failure per distinct panic site, shrunk to the shortest failing prefix; for a sample of the "
          "texts (every 6th / 40th) both AST searches are compared with the Lean model at every offset on the error-recovered "
-         "tree. distinct = distinct (tree, search); non-trivial = the answer names a node",
+         "tree; plus the INFINITE-TYPE family (self-referential definitions through tuple, array, option, result, struct, lambda, call argument, nested combinations, if/match branches, destructuring; recursive, self-valued, mutually recursive and lambda forms, ~290 texts) and the TYPE-ARGUMENT ARITY family (array, option, result, channel, generic struct / enum with 0, <>, too few, exact, too many arguments in let / parameter / return / field / variant / lambda-parameter positions, type declared above and below its use, each against a literal of the type, plus the prefix ending at the annotation, ~1180 texts). distinct = distinct (tree, search); non-trivial = the answer names a node",
     nontrivial=lambda req, imp: any(ch.isdigit() for ch in imp),
     trusted_base=COMMON_TB + [
         "core Lean's String model: String.Pos.Raw.IsValid (\"the bytes before the position are valid UTF-8\") is taken as the "
@@ -26,11 +26,8 @@ PROP = dict(
         "the worker-process harness (harness/src/fework.rs) that attributes a process death to the text being analysed",
     ],
     assumptions=[
-        "confirmed crashes are start-up probes (fecorpus::GATES), run in a child process before the stream: D53 (stack overflow on "
-        "`fn f() { f }`), D54, D55, D56, D57 have been fixed and are regression inputs (a crash is a failing input again); D64 "
-        "(`array<>`), D65 (`PushNil(0); Pop` in the optimizer) and D66 (blanket `implement I for T`) are fixed too (a50312a, 3b6ea2e, 73184d8) and probed at start-up like the others: while such a "
-        "probe still crashes, crashes at the site it reports are counted under its id and named in a note; once it stops crashing "
-        "it gates nothing",
+        "the confirmed crashes (D45, D53, D53b tuple cycle, D54-D57, D60, D64-D66; all fixed) are hard regression inputs "
+        "(fecorpus::GATES), run in a child process before the stream: a crash on any of them is a failing input; nothing is gated",
         "only the main file is damaged; imports of the corpus programs are left unresolved",
     ],
     design_ref="DESIGN.md §6 C34",
